@@ -2,3 +2,6 @@ import GodiModel.Kahn
 import GodiModel.Dfs
 import GodiModel.Graph
 import GodiModel.Spec.Digraph
+import GodiModel.Collection
+import GodiModel.Module
+import GodiModel.Spec.Registry
